@@ -6,8 +6,10 @@ tables, spec class attributes) from the AST alone.
 """
 
 import ast
+import copy
 import hashlib
 import os
+import re
 
 
 class AnalysisError(Exception):
@@ -44,11 +46,29 @@ class Opaque(object):
         return "Opaque(%s)" % self.src
 
 
+_SHARED = (ast.expr_context, ast.operator, ast.boolop, ast.unaryop, ast.cmpop)
+
+
 def set_parents(tree):
-    for node in ast.walk(tree):
+    """Parent links and a document-order index (_ord) for every node.  _ord, not lineno, is
+    what ordering rules compare: inlined statements keep the line numbers of the helper they
+    came from."""
+    counter = [0]
+
+    def visit(node, parent):
+        if isinstance(node, _SHARED):
+            return  # context / operator nodes are singletons shared by the whole tree
+        node._parent = parent
+        node._ord = counter[0]
+        counter[0] += 1
         for child in ast.iter_child_nodes(node):
-            child._parent = node
-    tree._parent = None
+            visit(child, node)
+
+    visit(tree, None)
+
+
+_TREE_CACHE = {}
+_PRIVATE_METHOD_RE = re.compile(r"^[ \t]+def (_[A-Za-z0-9][A-Za-z0-9_]*)\(", re.M)
 
 
 def unparse(node):
@@ -104,16 +124,34 @@ class ClassInfo(object):
         return "<Class %s>" % self.qualname
 
 
+INLINE_PREFIXES = ("conducting", "machines", "specs", "composers", "expressions", "graphing")
+
+
 class Module(object):
-    def __init__(self, name, path, relpath, src):
+    def __init__(self, name, path, relpath, src, inline=False, no_inline=frozenset()):
         self.name = name
         # short name: module path below "orquesta." (e.g. "conducting", "specs.native.v1.models")
         self.short = name[len("orquesta."):] if name.startswith("orquesta.") else name
         self.path = path
         self.relpath = relpath
         self.src = src
-        self.tree = ast.parse(src, filename=path)
-        set_parents(self.tree)
+        do_inline = bool(inline and self.short.split(".")[0] in INLINE_PREFIXES)
+        ck = (hashlib.sha1(src.encode()).hexdigest(), do_inline, no_inline)
+        if ck in _TREE_CACHE:
+            self.raw_tree, self.tree, self.n_inlined = _TREE_CACHE[ck]
+        else:
+            self.raw_tree = ast.parse(src, filename=path)
+            self.tree = self.raw_tree
+            self.n_inlined = 0
+            if do_inline and "def _" in src:
+                from sa.inline import inline_tree
+                t2, n = inline_tree(self.raw_tree, no_inline)
+                if n:
+                    self.tree, self.n_inlined = t2, n
+            set_parents(self.raw_tree)
+            if self.tree is not self.raw_tree:
+                set_parents(self.tree)
+            _TREE_CACHE[ck] = (self.raw_tree, self.tree, self.n_inlined)
         self.imports = {}  # local name -> ("module", modname) | ("attr", modname, attr)
         self.bindings = {}  # name -> list of (kind, node) module-level definitions in order
         self.classes = {}
@@ -176,8 +214,9 @@ class Module(object):
 class Program(object):
     """All non-test modules under <repo>/orquesta."""
 
-    def __init__(self, repo, overrides=None):
+    def __init__(self, repo, overrides=None, inline=True):
         self.repo = os.path.abspath(repo)
+        self.inline = inline
         self.modules = {}
         self.by_short = {}
         self.by_relpath = {}
@@ -186,6 +225,7 @@ class Program(object):
         if not os.path.isdir(root):
             raise AnalysisError("no orquesta package under %s" % self.repo)
         digest = hashlib.sha256()
+        sources = []
         for dirpath, dirnames, filenames in sorted(os.walk(root)):
             dirnames.sort()
             rel = os.path.relpath(dirpath, self.repo)
@@ -203,6 +243,16 @@ class Program(object):
                 else:
                     with open(path, "r", encoding="utf-8") as fh:
                         src = fh.read()
+                sources.append((path, relpath, src))
+        # private method names defined by more than one class anywhere: `self._h()` may
+        # dispatch to an override, so such helpers are never inlined
+        seen_defs = {}
+        for _p, _r, src in sources:
+            for nm in _PRIVATE_METHOD_RE.findall(src):
+                seen_defs[nm] = seen_defs.get(nm, 0) + 1
+        no_inline = frozenset(n for n, c in seen_defs.items() if c > 1)
+        for path, relpath, src in sources:
+            if True:
                 digest.update(relpath.encode())
                 digest.update(b"\0")
                 digest.update(src.encode())
@@ -211,7 +261,7 @@ class Program(object):
                     modparts = modparts[:-1]
                 name = ".".join(modparts)
                 try:
-                    m = Module(name, path, relpath, src)
+                    m = Module(name, path, relpath, src, inline=inline, no_inline=no_inline)
                 except SyntaxError as e:
                     raise AnalysisError("cannot parse %s: %s" % (relpath, e))
                 self.modules[name] = m
@@ -256,15 +306,44 @@ class Program(object):
             raise AnalysisError("anchor class vanished: %s" % qualname)
         return mod.classes[parts[-1]]
 
-    def all_functions(self):
+    def all_functions(self, include_dead=False):
+        """Functions of the analysed program.  Private helpers that the inlining pass has
+        expanded at every one of their call sites are skipped unless asked for: their bodies
+        live on inside their callers, and analysing the orphaned definition as well would
+        report everything twice (once without the caller's guards)."""
         for m in self.modules.values():
             for f in m.functions.values():
-                yield f
+                if include_dead or not self.is_dead_helper(f):
+                    yield f
             for c in m.classes.values():
                 for f in c.methods.values():
-                    yield f
+                    if include_dead or not self.is_dead_helper(f):
+                        yield f
         for f in self.nested_functions:
             yield f
+
+    def is_dead_helper(self, f):
+        if not getattr(f.node, "_inlined_somewhere", False):
+            return False
+        cache = self.__dict__.setdefault("_dead_cache", {})
+        if f.qualname in cache:
+            return cache[f.qualname]
+        name = f.name
+        used = False
+        for m in self.modules.values():
+            if used:
+                break
+            if name not in m.src:
+                continue
+            for n in ast.walk(m.tree):
+                if isinstance(n, (ast.Attribute, ast.Name)) and isinstance(n.ctx, ast.Load) and (
+                        n.attr if isinstance(n, ast.Attribute) else n.id) == name:
+                    # a remaining reference outside the helper's own body keeps it alive
+                    if enclosing_function(n) is not f.node:
+                        used = True
+                        break
+        cache[f.qualname] = not used
+        return not used
 
     def all_classes(self):
         for m in self.modules.values():
@@ -657,3 +736,47 @@ def norm_src(node):
     if isinstance(node, ast.ExceptHandler):
         return "except %s" % (unparse(node.type) if node.type is not None else "")
     return alpha_src(node)
+
+
+def single_defs(fnode):
+    """{local name: defining expression} for locals assigned exactly once, by a plain
+    top-level `name = expr` statement of the function body (straight-line definition)."""
+    counts, defs = {}, {}
+    for n in ast.walk(fnode):
+        if isinstance(n, (ast.Assign, ast.AugAssign, ast.AnnAssign, ast.For, ast.NamedExpr,
+                          ast.With, ast.comprehension)):
+            tgts = n.targets if isinstance(n, ast.Assign) else (
+                [i.optional_vars for i in n.items if i.optional_vars is not None]
+                if isinstance(n, ast.With) else [n.target])
+            for t in tgts:
+                for x in ast.walk(t):
+                    if isinstance(x, ast.Name) and isinstance(x.ctx, ast.Store):
+                        counts[x.id] = counts.get(x.id, 0) + 1
+    for s in fnode.body:
+        if isinstance(s, ast.Assign) and len(s.targets) == 1 and isinstance(s.targets[0], ast.Name):
+            nm = s.targets[0].id
+            if counts.get(nm) == 1:
+                defs[nm] = s.value
+    return defs
+
+
+def subst_locals(fnode, expr, depth=6):
+    """`expr` with straight-line, single-assignment locals of `fnode` replaced by their
+    defining expressions (so `x = f(a); return len(x) > 0` reads `len(f(a)) > 0`)."""
+    defs = single_defs(fnode)
+    if not defs:
+        return expr
+
+    class T(ast.NodeTransformer):
+        def visit_Name(self, n):
+            if isinstance(n.ctx, ast.Load) and n.id in defs:
+                return copy.deepcopy(defs[n.id])
+            return n
+
+    out = expr
+    for _ in range(depth):
+        if not any(isinstance(x, ast.Name) and x.id in defs and isinstance(x.ctx, ast.Load)
+                   for x in ast.walk(out)):
+            break
+        out = T().visit(copy.deepcopy(out))
+    return out
